@@ -84,11 +84,25 @@ rfc1055_context_init(RFC1055Context *ctx, uint32_t flags)
         : RFC1055_NORMAL;
 }
 
+/* sink_put_octet() hands the driver's answer through: a sink that took
+ * nothing (zero) has to be offered the octet again, like sink_put_chunk()
+ * does; treating zero as success would drop the octet. */
+static inline int
+rfc1055_put_octet(Sink *sink, const unsigned char data)
+{
+    for (;;) {
+        const int rc = sink_put_octet(sink, data);
+        if (rc != 0) {
+            return rc;
+        }
+    }
+}
+
 static inline int
 rfc1055_open(const RFC1055Context *ctx, Sink *sink)
 {
     if (BIT_ISSET(ctx->flags, RFC1055_WITH_SOF)) {
-        const int rc = sink_put_octet(sink, RAW_EOF);
+        const int rc = rfc1055_put_octet(sink, RAW_EOF);
         return rc < 0 ? rc : 0;
     }
 
@@ -98,7 +112,7 @@ rfc1055_open(const RFC1055Context *ctx, Sink *sink)
 static inline int
 rfc1055_close(Sink *sink)
 {
-    const int rc = sink_put_octet(sink, RAW_EOF);
+    const int rc = rfc1055_put_octet(sink, RAW_EOF);
     return rc < 0 ? rc : 0;
 }
 
@@ -113,7 +127,7 @@ rfc1055_encode_octet(Sink *sink, unsigned char data)
     switch (data) {
     case RAW_ESC: rc = sink_put_chunk(sink, esc_esc, sizeof(esc_esc)); break;
     case RAW_EOF: rc = sink_put_chunk(sink, esc_eof, sizeof(esc_eof)); break;
-    default:      rc = sink_put_octet(sink, data);                     break;
+    default:      rc = rfc1055_put_octet(sink, data);                  break;
     }
 
     return rc;
